@@ -11,6 +11,7 @@ from concurrent.futures import ThreadPoolExecutor
 
 from harness import projgen, runner, tlc, trace
 from harness.checks import c05, c17
+from harness.checks import wild_common as wc
 from harness.checks import rules_common as rc
 from harness.checks import scan_common as sc
 from harness.episodes import RuleEpisode
@@ -315,6 +316,9 @@ def run(ctx):
                     distinct_applies.add((fam, x["rid"], arch[x["a"]]))
     # (T) permutations of list-valued arguments, shuffled directory enumeration, re-evaluation
     rspecs, lspecs, scspecs = permutation_specs(ctx, rng)
+    # real source trees (harness/wild.py): scanned again under a shuffled directory enumeration, through both entry points
+    wspecs, wtrees = wc.specs(ctx, random.Random(ctx.seed * 7919 + 100), "C15", n_quick=3)
+    scspecs = scspecs + wspecs
     laws = 0
     for specs, module in ((rspecs, "Trace_Rules"), (lspecs, "Trace_Layers"), (scspecs, "Trace_Scan")):
         eps = runner.run_specs(specs)
@@ -399,7 +403,7 @@ def run(ctx):
         by_driver.setdefault(spec["driver"], []).append(ep)
     if not applies or not laws:
         raise tlc.MachineryError(f"vacuous run: applies={applies} same-laws={laws}")
-    cov = {"states": mc.distinct + tr_states, "transitions": mc.generated + tr_trans,
+    cov = {"real_source_trees": wtrees, "states": mc.distinct + tr_states, "transitions": mc.generated + tr_trans,
            "model_states": mc.distinct, "model_transitions": mc.generated,
            "traces_validated_against_impl": n_traces, "trace_events": events,
            "simulated_histories": len(hists), "history_length": 40, "applies_compared_with_isolated_evaluation": applies,
